@@ -10,7 +10,8 @@ Record cfg := {
   nn    : nat;                    (* nodes 0 .. nn-1, in topological order *)
   edges : list (nat * nat);       (* (src,dst); edge id = position *)
   slen  : nat -> option nat;      (* Some L : source emitting L items *)
-  cap   : nat
+  cap   : nat;
+  epar  : nat -> bool             (* the edge ends in a parameter port (read after the file in-ports of its process) *)
 }.
 
 Definition esrc (c : cfg) (e : nat) := fst (nth e (edges c) (0,0)).
@@ -68,6 +69,13 @@ Fixpoint is_perm (l1 l2 : list nat) : bool :=    (* executable permutation test 
   | a :: r => existsb (Nat.eqb a) l2 && is_perm r (remove Nat.eq_dec a l2)
   end.
 
+(* a round reads the file in-ports first (in any order), then the parameter ports (in any order) *)
+Fixpoint par_sorted (c : cfg) (l : list nat) : bool :=
+  match l with
+  | [] => true
+  | a :: r => (if epar c a then forallb (epar c) r else true) && par_sorted c r
+  end.
+
 Definition set_ns (s : st) v n := {| ns := upd (ns s) v n; es := es s |}.
 Definition set_es (s : st) e x := {| ns := ns s; es := upd (es s) e x |}.
 
@@ -86,7 +94,7 @@ Definition step (c : cfg) (s : st) (a : act) : option st :=
         then Some (set_ns s v {| ct := CtHand; rn := rn n; cN := cN n; eN := eN n; fl := fl n |})
         else Some (set_ns s v {| ct := CtDone; rn := rn n; cN := cN n; eN := eN n; fl := fl n |})
       | None =>
-        if is_perm perm (ins c v)
+        if is_perm perm (ins c v) && par_sorted c perm
         then Some (set_ns s v {| ct := CtRecv perm false; rn := rn n; cN := cN n; eN := eN n; fl := fl n |})
         else None
       end
@@ -108,8 +116,16 @@ Definition step (c : cfg) (s : st) (a : act) : option st :=
   | AEndRound v =>
     let n := ns s v in
     match ct n with
-    | CtRecv [] saw =>
-      Some (set_ns s v {| ct := if saw then CtDone else CtHand; rn := rn n; cN := cN n; eN := eN n; fl := fl n |})
+    | CtRecv todo saw =>
+      (* receiveOnInPorts reads every file in-port even after it met a closed one; when one was closed createTasks
+         leaves its loop without reading the parameter ports, so a round that saw a closed port may end with
+         parameter edges (only) left in [todo]; a round that saw no closed port ends when every port has delivered *)
+      if saw && forallb (epar c) todo then Some (set_ns s v {| ct := CtDone; rn := rn n; cN := cN n; eN := eN n; fl := fl n |})
+      else if saw then None
+      else match todo with
+           | [] => Some (set_ns s v {| ct := CtHand; rn := rn n; cN := cN n; eN := eN n; fl := fl n |})
+           | _ :: _ => None
+           end
     | _ => None
     end
   | AHand v =>
